@@ -4,6 +4,7 @@ from __future__ import annotations
 import gzip
 import io
 import itertools
+import tempfile
 
 import core
 import fam_encode
@@ -26,7 +27,10 @@ def c06_inputs(r):
     q4 = [gs.Quad(I("http://a/s"), I("http://a/p"), L("1"), I("http://g/1")),
           gs.Quad(I("http://a/s"), I("http://a/p"), L("2"), I("http://g/1")),
           gs.Quad(B("b"), I("http://a/q"), I("http://a/s"), gs.DefaultGraph),
-          gs.Quad(B("b"), I("http://a/q"), L("x", "en"), I("http://g/2"))]
+          # the same triple asserted again in the next graph: all three terms repeat, only the graph changes
+          gs.Quad(B("b"), I("http://a/q"), I("http://a/s"), I("http://g/2")),
+          gs.Quad(B("b"), I("http://a/q"), L("x", "en"), I("http://g/2")),
+          gs.Quad(B("b"), I("http://a/q"), L("x", "en"), I("http://g/3"))]
     return {3: [t3, fam_parse.rdf11_statements(r, g, 5, 3)], 4: [q4, fam_parse.rdf11_statements(r, g, 6, 4)]}
 
 
@@ -373,6 +377,30 @@ def c08(ctx):
             impl = fam_encode.impl_run(cfg, case["stmts"], case["ns"], case["sink"], "stream_frames", case)
             results.append((impl["raised"], fam_encode.impl_parse_flat(impl["bytes"]) if not impl["raised"] else None, impl["bytes"]))
         ctx.report.evaluations += 1
+        # the stream need not start at offset 0 of its carrier: an envelope the caller has already
+        # consumed (of either class, as far as the three-byte rule goes) must not change the answer
+        if not results[0][0]:
+            env = r.choice([b"\x01\x02\x03", b"\x0a\x05\x01", b"\x0a\x0a\x0a", b"\x0a\x0a\x01", b"\x0a", b"JELLY\n"])
+            for di, delim in enumerate((True, False)):
+                for carrier in ("BytesIO", "BufferedReader", "tempfile"):
+                    if carrier == "BytesIO":
+                        inp = io.BytesIO(env + results[di][2])
+                    elif carrier == "BufferedReader":
+                        inp = io.BufferedReader(io.BytesIO(env + results[di][2]))
+                    else:
+                        inp = tempfile.TemporaryFile()
+                        inp.write(env + results[di][2])
+                        inp.seek(0)
+                    assert inp.read(len(env)) == env
+                    got = fam_encode.impl_parse_flat(b"", inp)
+                    inp.close()
+                    ctx.report.evaluations += 1
+                    ctx.report.count("C08/offset-carriers/" + carrier)
+                    if got != results[di][1]:
+                        out.append({"family": "HD", "header": hx(results[di][2][:3]), "impl": got[0], "model": results[di][1][0], "corresponds": True,
+                                    "carrier": carrier, "envelope": hx(env), "bytes": hx(results[di][2]),
+                                    "property_violation": {"what": f"a {'delimited' if delim else 'non-delimited'} stream read from a {carrier} positioned after a consumed {len(env)}-byte envelope parses differently ({got[0]}) than from offset 0 ({results[di][1][0]})"},
+                                    "signature": {}})
         if results[0][0] != results[1][0] or results[0][1] != results[1][1]:
             out.append({"family": "EN", "entry": "stream_frames", "cfg": cfg.as_json(), "stmts": [core_stmt_tok(s) for s in case["stmts"]],
                         "ns": case["ns"], "sink": case["sink"], "corresponds": True, "impl": hx(results[0][2][:12]) + " / " + hx(results[1][2][:12]), "model": "",
@@ -382,6 +410,20 @@ def c08(ctx):
 
 
 def replay_hd(ctx, body):
+    if body.get("carrier"):
+        env, data = core.unhx(body["envelope"]), core.unhx(body["bytes"])
+        if body["carrier"] == "BytesIO":
+            inp = io.BytesIO(env + data)
+        elif body["carrier"] == "BufferedReader":
+            inp = io.BufferedReader(io.BytesIO(env + data))
+        else:
+            inp = tempfile.TemporaryFile()
+            inp.write(env + data)
+            inp.seek(0)
+        inp.read(len(env))
+        got, base = fam_encode.impl_parse_flat(b"", inp), fam_encode.impl_parse_flat(data)
+        print("carrier", body["carrier"], "envelope", env.hex(), "from offset:", got[0], len(got[1]), "from 0:", base[0], len(base[1]))
+        return body["property_violation"]["what"] if got != base else None
     h = core.unhx(body["header"])
     impl = pio.delimited_jelly_hint(h)
     model = ctx.driver.ask("HD " + hx(h))
